@@ -117,3 +117,70 @@ Theorem model_outputs_pass_spec :
     judge (CStream (combine stream (run F stream))) = BadCase.
 Proof. exact Proofs.C23.c_model_passes_spec. Qed.
 Print Assumptions model_outputs_pass_spec.
+
+(* ---- the WHOLE LIFE of one watcher: the block source may close the channel and hand out
+   further subscriptions.  [life F h] is the model of watchCoordinationWindows on the history
+   [h] of the source (EBlock b = a block offered on the current subscription, EClose = the
+   current channel is closed): per event, Some out = received, started out; None = never
+   received.  [started_all] concatenates everything started over the whole history. ---- *)
+
+(* as the code is written the watcher subscribes once: it receives the blocks offered before
+   the first closure, then reads zero values from the closed channel (starting nothing) and
+   never receives anything offered on a later subscription *)
+Theorem whole_life_is_the_first_subscription :
+  forall (s : list Z) (rest : list event),
+    life F (map EBlock s ++ EClose :: rest) =
+    map Some (run F s) ++ Some [] :: map (fun _ => None) rest.
+Proof. exact Proofs.C23.c_life_shape. Qed.
+Print Assumptions whole_life_is_the_first_subscription.
+
+Theorem whole_life_without_closure :
+  forall s : list Z, life F (map EBlock s) = map Some (run F s).
+Proof. exact Proofs.C23.c_life_never_closed. Qed.
+Print Assumptions whole_life_without_closure.
+
+(* for EVERY history (closures, replayed / regressed / repeated blocks on later
+   subscriptions): the windows started over the whole life are strictly increasing, positive
+   multiples of the frequency, and blocks that were offered *)
+Theorem whole_life_started_windows_strictly_increasing :
+  forall h : list event,
+    StronglySorted Z.lt (started_all (combine h (life F h))) /\
+    forall w, In w (started_all (combine h (life F h))) ->
+              (exists k, 0 < k /\ w = k * F) /\ In (EBlock w) h.
+Proof. exact Proofs.C23.c_life_increasing. Qed.
+Print Assumptions whole_life_started_windows_strictly_increasing.
+
+(* a re-subscribing watcher is safe exactly as long as the watermark survives the
+   re-subscription (then its received stream is the concatenation and the all-streams
+   theorems apply) ... *)
+Theorem kept_watermark_continues_the_stream :
+  forall s1 s2 : list Z,
+    fired F (s1 ++ s2) = fired F s1 ++ concat (run_from F (last_after F None s1) s2).
+Proof. exact Proofs.C23.c_kept_watermark. Qed.
+Print Assumptions kept_watermark_continues_the_stream.
+
+(* ... and unsafe when each subscription starts from an empty watermark *)
+Theorem forgotten_watermark_refuted :
+  exists s1 s2 : list Z, ~ StronglySorted Z.lt (fired F s1 ++ fired F s2).
+Proof. exact Proofs.C23.c_forgotten_watermark_refuted. Qed.
+Print Assumptions forgotten_watermark_refuted.
+
+(* executable form over the whole life: accepted observations have strictly increasing
+   started windows over ALL subscriptions, each a positive multiple of F and a received block,
+   and the received blocks started exactly what one continuous stream starts *)
+Theorem life_spec_ok_sound :
+  forall obs : list (event * option (list Z)),
+    spec_ok F (CLife obs) = true ->
+    StronglySorted Z.lt (started_all obs) /\
+    (forall w, In w (started_all obs) ->
+               (exists k, 0 < k /\ w = k * F) /\ In w (map fst (consumed obs))) /\
+    map snd (consumed obs) = run F (map fst (consumed obs)).
+Proof. exact Proofs.C23.c_life_spec_sound. Qed.
+Print Assumptions life_spec_ok_sound.
+
+Theorem life_model_outputs_pass_spec :
+  forall h : list event,
+    judge (CLife (combine h (life F h))) = Agree \/
+    judge (CLife (combine h (life F h))) = BadCase.
+Proof. exact Proofs.C23.c_life_model_passes_spec. Qed.
+Print Assumptions life_model_outputs_pass_spec.
